@@ -204,6 +204,21 @@ def run(ctx):
             ctx.violation(inst, "E-ESCAPE", s.loc(),
                           "%s (%s) can escape the main loop through %s: a missing/empty file or absent key kills the daemon" % (
                               s.what, s.exc, nm), chain)
+    # helper threads started from inside the tick (Senpai's timed write): an exception leaving their entry is std::terminate
+    n_thr = 0
+    for t_usr, creator, node in cg.thread_roots:
+        if creator.usr not in tick_fns and t_usr not in tick_fns:
+            continue
+        t = P.fns[t_usr]
+        n_thr += 1
+        ctx.use(t)
+        esc = E.from_root(t, classes={"explicit", "absent", "assert"})
+        ctx.check(not esc, "tick-helper-thread-cannot-throw:" + short(creator), "E-ESCAPE", t.loc(),
+                  "no missing-file / absent-key / explicit throw escapes the helper thread started in " + creator.pq,
+                  "an exception can escape the helper thread started in %s (std::terminate in the middle of a tick): %s" % (
+                      creator.pq, "; ".join("%s at %s" % (s.what, s.loc()) for s, _ in esc[:3])), esc[0][1] if esc else None)
+    ctx.counters["tick_helper_threads"] = n_thr
+    ctx.floor("tick_helper_threads", 1, "threads started from tick code (Senpai timed_invoke)")
     ctx.counters["accepted_escape_sites"] = n_acc
     ctx.ok("escape-analysis", "E-ESCAPE", main.loc(), "%d throw sites examined from %d roots" % (len(seen), len(roots)))
     ctx.tables["accepted_escapes"] = {"%s/%s" % k: v for k, v in ACCEPTED_ESCAPES.items()}
